@@ -39,16 +39,20 @@ def _over_layer_inputs(g: ast.comprehension) -> bool:
     return isinstance(it, ast.Call) and isinstance(it.func, ast.Attribute) and it.func.attr == "layer_inputs" and len(it.args) == 1
 
 
-def rewiring_order(ctx: Ctx, funcs: list[str]) -> list[Ob]:
+def _over_outputs(g: ast.comprehension) -> bool:
+    return isinstance(g.iter, ast.Attribute) and g.iter.attr == "outputs"
+
+
+def rewiring_order(ctx: Ctx, funcs: list[str], module: str = FUNCTIONAL, with_outputs: bool = False) -> list[Ob]:
     obs: list[Ob] = []
     for fn in funcs:
-        f: FuncInfo = ctx.repo.func(f"{FUNCTIONAL}.{fn}")
+        f: FuncInfo = ctx.repo.func(f"{module}.{fn}")
         par = _parents(f.node)
         k = 0
         for n in ast.walk(f.node):
             if not isinstance(n, (ast.ListComp, ast.GeneratorExp)):
                 continue
-            gens = [g for g in n.generators if _over_layer_inputs(g)]
+            gens = [g for g in n.generators if _over_layer_inputs(g) or (with_outputs and _over_outputs(g))]
             if not gens:
                 continue
             site = f"{f.module.relpath}:{n.lineno}"
